@@ -107,6 +107,22 @@ class Liar2:
         raise ValueError
     def __bool__(self):
         raise KeyError
+class Liar3:
+    def __len__(self):
+        return 1 << 60
+    def __iter__(self):
+        return iter([1, 2, 3])
+    def __getitem__(self, i):
+        return [1, 2, 3][i]
+class Liar4:
+    def __len__(self):
+        return -5
+    def __iter__(self):
+        return iter((1, 2))
+    def __index__(self):
+        return -(1 << 62)
+    def __length_hint__(self):
+        return 1 << 62
 def call(f, a, k):
     return f(*a, **k)
 `
@@ -224,6 +240,9 @@ func c10Universe(quick bool) []c10val {
 		pv("closure-code", "mkcell().__code__"),
 		pv("liar", "Liar()"),
 		pv("liar2", "Liar2()"),
+		// lengths that have nothing to do with what the object yields
+		pv("liar-huge-len", "Liar3()"),
+		pv("liar-negative-len", "Liar4()"),
 		pv("call-iterator", "iter(lambda: (1,), (1,))"),
 		pv("self-list", "mkselflist()"),
 		pv("self-dict", "mkselfdict()"),
@@ -957,6 +976,14 @@ func c10Run(rc *core.RunCtx) {
 			progs = append(progs, struct{ name, src string }{"parens-" + itoa(n), "x = " + strings.Repeat("(", n) + "1" + strings.Repeat(")", n) + "\n"})
 			progs = append(progs, struct{ name, src string }{"lists-" + itoa(n), "x = " + strings.Repeat("[", n) + "1" + strings.Repeat("]", n) + "\nrepr(x)\n"})
 			progs = append(progs, struct{ name, src string }{"calls-" + itoa(n), "def i(v):\n return v\nx = " + strings.Repeat("i(", n) + "1" + strings.Repeat(")", n) + "\n"})
+		}
+		// class statements whose bases have no consistent linearisation, detected early and late
+		// in the merge (the error path builds a message from the lists still being merged)
+		base := "class A: pass\nclass B: pass\nclass C: pass\nclass X(A, B): pass\nclass Y(B, A): pass\nclass P(A): pass\nclass Q(A, C): pass\n"
+		for i, last := range []string{"class Z(X, Y): pass", "class Z(Y, X): pass", "class Z(A, P): pass", "class Z(A, A): pass", "class Z(X, Y, C): pass", "class Z(C, X, Y): pass",
+			"class Z(A, B, X): pass", "class Z(X, A, B): pass", "class Z(Q, X, Y): pass", "class Z(object, A): pass", "class Z(P, Q, X, Y): pass", "class Z(X, Q, P, Y): pass",
+			"Z = type('Z', (X, Y), {})", "Z = type('Z', (A, P), {})", "class Z(int, str): pass", "class Z(A, int, X): pass", "class Z(5): pass", "class Z(A, None): pass"} {
+			progs = append(progs, struct{ name, src string }{"mro-" + itoa(i), base + "try:\n    " + last + "\nexcept TypeError:\n    pass\n" + last + "\n"})
 		}
 		for _, pr := range progs {
 			if rc.Expired() || rc.Done() {
